@@ -353,8 +353,10 @@ def c06(ctx):
                   {"permit_obsolete_folding": True, "strip_header_spaces": True,
                    "permit_unconventional_http_method": True, "permit_unconventional_http_version": True,
                    "casefold_http_method": True, "header_map": "dangerous"}):
-        cfgv = drv.make_cfg(**cfgkw)
         relax = not any(k.startswith(("limit_", "proxy_")) for k in cfgkw)
+        if relax and ctx.quick and len(cfgkw) == 1 and rng.random() < 0.5:
+            continue                    # (quick tier: about half of the single switches per run, the combination always)
+        cfgv = drv.make_cfg(**cfgkw)
         for f in (("proxy",) if "proxy_protocol" in cfgkw else ("heads1", "pipeline", "chunks")):
             cases = emit_cases(f)
             cases = rng.sample(cases, min(len(cases), (10 if relax else 25) if ctx.quick else (120 if relax else 250)))
